@@ -53,7 +53,15 @@ func (g *Rng) replyFrame() string {
 			members = []string{`"parameters":{` + g.jsonString(fld) + `:` + val + `}`, members[len(members)-1]}
 		}
 	case 2:
-		members = append(members, `"error":""`)
+		if g.Bool() {
+			// the standard errors are recognised by their full name only: a bare or near-miss name is just some error
+			k := g.Pick([]string{"InterfaceNotFound", "MethodNotFound", "MethodNotImplemented", "InvalidParameter"})
+			name := g.Pick([]string{k, "." + k, "org.varlink.service" + k, "xorg.varlink.service." + k, "org.varlink.service." + strings.ToLower(k), "org.varlink.service.x." + k, "com.example." + k})
+			fld := map[string]string{"InterfaceNotFound": "interface", "MethodNotFound": "method", "MethodNotImplemented": "method", "InvalidParameter": "parameter"}[k]
+			members = []string{`"parameters":{` + g.jsonString(fld) + `:"x"}`, `"error":` + g.jsonString(name)}
+		} else {
+			members = append(members, `"error":""`)
+		}
 	case 3:
 		if g.Chance(1, 3) {
 			members = append(members, `"error":null`)
